@@ -285,6 +285,13 @@ def r2_sequence(program, folder, rep):
     tn = T.cfg.node_containing(c_blk)
     d_blk = b_blk.get("data")
     piece = T.term(d_blk, tn) if d_blk is not None else ("?",)
+    if plain(piece)[0] in ("comp", "elem"):
+        # the blocks were prepared in a collection beforehand and are only
+        # fetched from it here: how that collection was cut from the image
+        # is not read
+        raise AnalysisError("boot: the data of a block is an item of a "
+                            "collection prepared before the loop; how the "
+                            "image was cut up there is not analysed")
     IMG = None
     if piece[0] == "item":
         for cand in one_level(piece[1]) + [piece[1]]:
@@ -292,6 +299,10 @@ def r2_sequence(program, folder, rep):
             if pc[0] == "call" and pc[1] == ("global", "bytes") and \
                     len(pc[2]) == 1:
                 IMG = cand
+    if IMG is None and piece[0] == "item":
+        raise AnalysisError("boot: the blocks are cut from something that "
+                            "is not bytes(<the buffer that was spliced>); "
+                            "how the image was put together is not read")
     ok = IMG is not None and chunked(piece, IMG, B, tconst)
     by_number = None
     if not ok and IMG is not None and piece[0] == "item" and \
@@ -487,6 +498,17 @@ def r3_splice(program, folder, rep):
     splices = [n for n in ast.walk(fn) if isinstance(n, ast.Assign) and
                isinstance(n.targets[0], ast.Subscript) and
                isinstance(n.targets[0].slice, ast.Slice)]
+    if not splices and any(
+            isinstance(n, ast.Subscript) and isinstance(n.slice, ast.Slice)
+            and isinstance(n.ctx, ast.Load) and any(
+                isinstance(x, ast.Name) and x.id == "BOOT_DATA_OFFSET"
+                for x in ast.walk(n.slice)) for n in ast.walk(fn)):
+        # no slice assignment, but the image is taken apart at the offset of
+        # the configuration area: written another way (concatenation)
+        raise AnalysisError("boot: the configuration area is not written by "
+                            "a slice assignment (the image is taken apart at "
+                            "BOOT_DATA_OFFSET instead); that form is not "
+                            "analysed")
     rep.check(len(splices) == 1, "C20-R3", inst, "one slice assignment "
               "writes the configuration area", construct="splice count %d" %
               len(splices), node=fn)
@@ -876,6 +898,29 @@ def r4_packet(program, folder, rep):
             data = ("param", ps[5]) if len(ps) > 5 else None
             okc = WORD is not None and data is not None and \
                 chunked(WORD, data, 4, const)
+    if elem is not None and not okw:
+        # struct.unpack_from('<I', data, i) for i in range(0, len(data), 4)
+        # (also the normal form of struct.unpack('<I', data[i:i + 4]))
+        UNF_ = ("call", ("attr", ("global", "struct"), "unpack_from"),
+                (V("g"), V("w"), V("o")), ())
+        pe = plain(elem)
+        m = match(("call", PACK, (V("f"), ("comp", UNF_, 0)), ()), pe) or \
+            match(("call", PACK, (V("f"), ("star", UNF_)), ()), pe)
+        if m is not None:
+            okw = _fmt_norm(const(m["f"])) == _fmt_norm("!I") and \
+                _fmt_norm(const(m["g"])) == _fmt_norm("<I")
+            data = ("param", ps[5]) if len(ps) > 5 else None
+            o_ = m["o"]
+            okc = False
+            if o_[0] == "elem" and data is not None and m["w"] == data:
+                r_ = match(("call", ("global", "range"),
+                            (V("a"), V("b"), V("c")), ()), plain(o_[1]))
+                okc = r_ is not None and const(r_["a"]) == 0 and \
+                    const(r_["c"]) == 4 and r_["b"] == (
+                        "call", ("global", "len"), (data,), ())
+            if not okc and not (o_[0] == "elem"):
+                raise AnalysisError("boot_packet: the words are read at "
+                                    "offsets whose sequence is not read")
     if elem is not None and not okw:
         # struct.iter_unpack('<I', data) walks the consecutive words in order
         m = match(("call", PACK, (V("f"), ("comp", ("elem", ("call", (
